@@ -452,7 +452,7 @@ INFO = {
     "bounds": {"quick": {"system zone": "std and dst offsets any whole minute within +-24 h, daylight 0/1, tm_isdst -1/0/1",
                          "seconds_since_unix_epoch": "every year -1 000 000..999 999, offsets -14:59..+14:59, whole seconds; gregorian: ordinal days 1-62 and 335-366, calendar months Jan-Mar and Dec, week dates in weeks 1, 27, 53; other modes: ordinal days 1-31 and 335-366", "to_local_time_zone": "ordinal dates, point offsets -99:59..+99:59",
                          "from epoch": "n in +-2*366 days (gregorian, 360day; the real code walks one day per path)"},
-               "thorough": {"from epoch": "n in +-6*366 days, all 4 modes", "seconds_since_unix_epoch": "offsets -30:59..+30:59 (week dates +-14:59, weeks 1, 2, 26, 27, 52, 53); every ordinal/calendar date in all modes, every gregorian week date", "to_local_time_zone": "3 representations"}},
+               "thorough": {"from epoch": "n in +-6*366 days, all 4 modes", "seconds_since_unix_epoch": "offsets -30:59..+30:59 (week dates +-14:59, weeks 1, 2, 26, 27, 52, 53); every ordinal/calendar date in all modes", "to_local_time_zone": "3 representations"}},
     "outside": ["the from-epoch direction beyond the stated window ('many millennia')", "fractional n",
 ],
     "assumptions": ["stub: time.timezone/altzone/daylight/localtime().tm_isdst return arbitrary values of their documented types within the stated ranges"],
